@@ -2,6 +2,7 @@
 //! fractional totals, a step taken in between two that usually follow each other). Every episode is a short
 //! real execution; TLC judges the traces with the same predicates as everywhere else.
 use crate::drv::{asset_amount, base_setup, pick, search_boundary, Recorder};
+use fixed::types::I80F48;
 use rand::{rngs::StdRng, Rng, SeedableRng};
 use serde_json::{json, Value};
 
@@ -797,5 +798,60 @@ pub fn kill_driver(out: &str, seed: u64, n: u64) {
         r.act(json!({"op":"withdraw","acct":"LP","bank":"D1","amount":0,"all":true}));
     }
     eprintln!("kill driver: {} scenarios, {} banks killed, {} events", n, nkill, r.events);
+    r.finish();
+}
+
+// ------------------------------------------------------------------------------------------------
+// zerorate driver (C06): curves whose base rate is zero over a stretch of utilization (zero rate at 0 %, a point at
+// (50 %, 0) or all the way to (99 %, 0)) on banks that charge fixed fees (insurance / group; program fees on or off) and rate
+// fees: inside the flat stretch the borrowers pay the fixed fees only and every unit they pay has to reach a fee bucket;
+// beyond it the rate fees join in. Borrow to a utilization inside / at the end of / beyond the stretch, let time pass, accrue.
+// ------------------------------------------------------------------------------------------------
+pub fn zerorate_driver(out: &str, seed: u64, n: u64) {
+    let mut rng = StdRng::seed_from_u64(seed ^ 0x2e20);
+    let mut r = Recorder::new(&format!("{}/zerorate.trace", out), base_setup());
+    let full: u64 = 4_294_967_295;
+    for k in 0..n {
+        let flat_end: u64 = *pick(&mut rng, &[full / 2, full / 10 * 9, full / 100 * 99, full / 4]);
+        let fees = match k % 4 {
+            0 => json!({"ins_fixed":"0.01"}),
+            1 => json!({"grp_fixed":"0.02","ins_ir":"0.1"}),
+            2 => json!({"ins_fixed":"0.005","grp_fixed":"0.03","grp_ir":"0.25","ins_ir":"0.05"}),
+            _ => json!({"ins_fixed":"0.5","grp_fixed":"0.5"}),
+        };
+        let mut ir = fees.clone();
+        ir["zero"] = json!(0);
+        ir["hundred"] = json!(*pick(&mut rng, &[429_496_729u64, 42_949_672, full]));
+        ir["points"] = json!([[flat_end, 0]]);
+        ir["orig_fee"] = json!("0");
+        let mut extra = vec![];
+        plain_bank("Z1", *pick(&mut rng, &[6u8, 9]), "spl", "1", json!({"ir": ir}), &mut extra);
+        plain_bank("C1", 6, "spl", "1", json!({"aw_init":"1","aw_maint":"1"}), &mut extra);
+        extra.push(json!({"op":"fund","user":"U9","mint":"M.Z1","amount":"4000000000000000000"}));
+        extra.push(json!({"op":"fund","user":"U1","mint":"M.C1","amount":"4000000000000000000"}));
+        extra.push(json!({"op":"fund","user":"U1","mint":"M.Z1","amount":"4000000000000000000"}));
+        if k % 3 == 0 {
+            extra.push(json!({"op":"config_group_fee","group":"G1","enable":false}));
+        }
+        r.begin(&extra);
+        let dep: u64 = *pick(&mut rng, &[1_000_000_000u64, 123_456_789_012, 50_000_000]);
+        r.act(json!({"op":"deposit","acct":"LP","bank":"Z1","amount":dep}));
+        r.act(json!({"op":"deposit","acct":"A1","bank":"C1","amount":(dep as u128 * 4_000).to_string()}));
+        // utilization inside the flat stretch, at its end, beyond it
+        for frac in [0.2f64, (flat_end as f64 / full as f64) - 0.001, (flat_end as f64 / full as f64) + 0.004] {
+            let target = (dep as f64 * frac) as u64;
+            let have = r.ex.bank("Z1").map(|b| { let l: I80F48 = b.total_liability_shares.into(); let v: I80F48 = b.liability_share_value.into(); (l * v).to_num::<u64>() }).unwrap_or(0);
+            if target > have {
+                r.act(json!({"op":"borrow","acct":"A1","bank":"Z1","amount":target - have}));
+            }
+            for dt in [1i64, 86_400, 31_536_000] {
+                r.act(json!({"op":"tick","dt":dt}));
+                r.act(json!({"op":"accrue","bank":"Z1"}));
+            }
+            r.act(json!({"op":"collect_fees","bank":"Z1"}));
+        }
+        r.act(json!({"op":"repay","acct":"A1","bank":"Z1","amount":0,"all":true}));
+    }
+    eprintln!("zerorate driver: {} scenarios, {} events", n, r.events);
     r.finish();
 }
